@@ -14,4 +14,4 @@ def run_all(facts, serde_facts, tier):
     return out
 
 
-RULES = ["DELEG", "DELETE", "SERDE", "REFCELL", "FORGET", "GENERIC", "NONEXH"]
+RULES = ["DELEG", "DELETE", "SERDE", "REFCELL", "FORGET", "GENERIC", "NONEXH", "VECCOVER"]
